@@ -167,15 +167,24 @@ func mapOrderPhase(r *ev.Run, variants []chain.GenesisOptions) {
 		}
 		c := &checker{prop: "C01", w: w, alpha: w.alphabet("c01"), specs: bundleSpecs("C01", true), mapOrder: true}
 		n := len(c.alpha)
-		ev.ParallelRange(n*n, r.Seed, func(i int) {
+		total := n * n
+		single := opts.Runtime && !r.Thorough()
+		if single {
+			total = n
+		}
+		ev.ParallelRange(total, r.Seed, func(i int) {
 			if r.Expired() {
 				r.Cap("deadline")
 				return
 			}
 			// two letters, then two empty blocks (elections of later epochs see the effects)
 			h := []int{i / n, i % n, 0, 0}
+			if single {
+				// quick tier, runtime genesis: one letter, then empty blocks until committees were elected twice
+				h = []int{0, i, 0, 0, 0, 0}
+			}
 			_, what, pruned := c.runHistory(h, true)
-			r.Add("transitions", 4)
+			r.Add("transitions", int64(len(h)))
 			r.Add("map_order_executions", 1)
 			if pruned || what == "" {
 				return
@@ -196,6 +205,62 @@ func mapOrderPhase(r *ev.Run, variants []chain.GenesisOptions) {
 	r.Set("map_iteration_order", "every replica and block runs under a fixed iterator offset (replica+3*block mod 8); all rotations of single-group maps are produced")
 }
 
+// timelinePhase: long histories.  N blocks of which one (at every chosen
+// position) carries a letter of the alphabet and all others are empty: epoch
+// timing (node expiry and removal, debonding completion, proposal closing,
+// committee elections, reward payouts) interacts with each letter at every
+// offset.  The property's per-block oracle is evaluated on every block.
+func timelinePhase(r *ev.Run, c *checker, vi int, profile string, opts chain.GenesisOptions) {
+	n := 8
+	positions := []int{0, 2, 4}
+	if r.Thorough() {
+		n = 14
+		positions = []int{0, 1, 2, 3, 4, 5, 6, 8, 10}
+	}
+	if c.prop == "C01" && !r.Thorough() {
+		positions = []int{1, 3}
+	}
+	type job struct{ pos, li int }
+	var jobs []job
+	for _, p := range positions {
+		for li := range c.alpha {
+			if li == 0 && p != positions[0] {
+				continue // the all-empty timeline once
+			}
+			jobs = append(jobs, job{p, li})
+		}
+	}
+	ev.ParallelRange(len(jobs), r.Seed, func(ji int) {
+		if r.Expired() {
+			r.Cap("deadline")
+			return
+		}
+		j := jobs[ji]
+		h := make([]int, n)
+		h[j.pos] = j.li
+		_, what, pruned := c.runHistory(h, true)
+		r.Add("timeline_histories", 1)
+		r.Add("transitions", int64(n))
+		r.Add("blocks_executed", int64(n*len(c.specs)))
+		if pruned || what == "" {
+			return
+		}
+		if strings.HasPrefix(what, "harness:") {
+			r.HarnessError("%s [timeline pos %d %s]", what, j.pos, c.alpha[j.li].Name)
+			return
+		}
+		var ln []string
+		for _, i := range h {
+			ln = append(ln, c.alpha[i].Name)
+		}
+		r.Violate(ev.Violation{Engine: "chainmc", Key: fmt.Sprintf("%s genesis#%d timeline[%d blocks, %s at %d]", strings.ToLower(c.prop), vi, n, c.alpha[j.li].Name, j.pos),
+			What:     fmt.Sprintf("genesis variant %d, timeline of %d blocks with [%s] at position %d and empty blocks elsewhere: %s", vi, n, c.alpha[j.li].Name, j.pos, what),
+			Artefact: histArtefact{Property: c.prop, Profile: profile, Genesis: opts, History: h, Letters: ln}})
+	})
+	r.Set("timeline_blocks", n)
+	r.Set("timeline_positions", positions)
+}
+
 func runHistories(r *ev.Run) {
 	prop := r.ID
 	profiles := map[string][]string{"C01": {"c01"}, "C05": {"staking"}, "C10": {"halt"}}[prop]
@@ -213,6 +278,17 @@ func runHistories(r *ev.Run) {
 		for _, cp := range []uint64{60, 70, 90, 110, 140, 160} {
 			variants = append(variants, chain.GenesisOptions{CommonPool: cp, EpochInterval: 2})
 		}
+	}
+	if prop == "C10" {
+		// a compute runtime served by all nodes, one node expiring while it sits in the committee;
+		// debonding interval 1 and 2 (expired nodes are removed after the debonding interval)
+		variants = append(variants,
+			chain.GenesisOptions{Runtime: true, RtGroupSize: 3, EpochInterval: 1, NodeExpirations: []uint64{12, 4, 12}},
+			chain.GenesisOptions{Runtime: true, RtGroupSize: 2, RtBackupSize: 1, EpochInterval: 1, NodeExpirations: []uint64{12, 12, 5}, DebondingInterval: 2},
+			chain.GenesisOptions{Runtime: true, RtGroupSize: 2, EpochInterval: 2, NodeExpirations: []uint64{3, 12, 12}, RtMaxInMessages: 2})
+	}
+	if prop == "C05" || prop == "C01" {
+		variants = append(variants, chain.GenesisOptions{Runtime: true, RtGroupSize: 2, EpochInterval: 1, NodeExpirations: []uint64{12, 4, 12}})
 	}
 	if prop == "C01" {
 		// all entities tied and the validator limit cutting into the tie: any order-dependent
@@ -320,6 +396,7 @@ func runHistories(r *ev.Run) {
 				frontier = next
 			}
 			r.Add("states", int64(len(seen)))
+			timelinePhase(r, c, vi, profile, opts)
 		}
 	}
 	r.Set("depth", depth)
